@@ -82,6 +82,20 @@ def jobs(tier, seed):
                               opts={'runouts': (None, 1, 2, 3)}))
                 for au in (['NONE'] + MIXED_AUTOS if (thorough or boards == 1) else ['NONE']):
                     out.append(_j('automation', C.custom(stacks, TWO_ST, autos=au, **base)))
+    # every deal (by rank: who ties whom on which board / half) of the tiny hi-lo and double-board games: the default
+    # deck order gives one tie pattern only, and where the odd chips of a chopped sub-pot go depends on who chops it
+    for stacks in [(3, 3, 3), (2, 3, 5), (3, 4, 4)] + ([(5, 5, 5), (2, 4, 7), (3, 3)] if thorough else []):
+        for boards in (1, 2):
+            for ht in (HILO, ('KuhnAny',)):
+                if ht != HILO and boards == 1:
+                    continue
+                for ranks in product('JQK', repeat=len(stacks) + boards):
+                    if max(ranks.count(r) for r in 'JQK') > 3:
+                        continue
+                    left = {r: list('shd') for r in 'JQK'}
+                    plan = [r + left[r].pop(0) for r in ranks]
+                    out.append(_j('all-deals', C.custom(stacks, TWO_ST, deck='KUHN9', hand_types=ht, antes=1, blinds=(1, 2),
+                                                        boards=boards, plan=plan), opts={'raises': 'minmax'}))
     # --- F2: the 12 predefined variants ---------------------------------------
     NTs = [(2, 3), (3, 5, 8), (1, 5, 3), (5, 2, 5)] + ([(8, 8, 8), (2, 3, 5, 8)] if thorough else [])
     for stacks in NTs:
